@@ -430,6 +430,9 @@ func premisePool() []hPrem {
 	}
 }
 
+// c04OnlyHead restricts the corpus to one head shape (used when another property repeats the obligation); -1 = all.
+var c04OnlyHead = -1
+
 func c04Corpus(c *core.Ctx) {
 	rw := c.MustFunc(rC04Perm, "analysis", "RewriteClause")
 	ck := c.MustFunc(rC04Safe, "analysis", "Analyzer.CheckRule")
@@ -521,7 +524,10 @@ func c04Corpus(c *core.Ctx) {
 			}
 		}
 	}
-	for _, h := range heads {
+	for hi, h := range heads {
+		if c04OnlyHead >= 0 && hi != c04OnlyHead {
+			continue
+		}
 		for _, sq := range seqs {
 			if h.hasDo && len(sq) > 2 {
 				continue
@@ -589,5 +595,5 @@ func c04Corpus(c *core.Ctx) {
 		c.Cover("accepted_clauses_evaluated", evaluated)
 		c.Check(evalBad == "" && evaluated > 100, rC04Eval, evalF.Name, evalF.Decl.Pos(), fmt.Sprintf("%d evaluations of accepted clauses: no error, only ground facts", evaluated), evalBad)
 	}
-	c.Check(safeBad == "" && accepted > 50, rC04Safe, ck.Name, ck.Decl.Pos(), fmt.Sprintf("%d of %d clauses accepted, all of them safe in their evaluation order", accepted, n), safeBad)
+	c.Check(safeBad == "" && accepted > 20, rC04Safe, ck.Name, ck.Decl.Pos(), fmt.Sprintf("%d of %d clauses accepted, all of them safe in their evaluation order", accepted, n), safeBad)
 }
